@@ -205,7 +205,9 @@ void run_e2e(Toks &tk, std::ostream &os, const std::string &id)
     if (ok)
         os << id << " status OK\n";
     else
-        os << id << " status ERR " << code << "\n";
+        // an exception whose message is not one of the known ones (a maintainer may reword a message: the property is about THROWING, and about
+        // which check fires first only as far as it can be told) is reported as `?`, which the comparison accepts for any rejection code
+        os << id << " status ERR " << (code == 99 ? std::string("?") : std::to_string(code)) << "\n";
     os << id << " labels";
     for (auto &l : labels)
         os << " " << to_s(l);
